@@ -86,7 +86,7 @@ LongWord == Rep("abcdefghij", 3000)
 Deep(o) == Rep(o \o " ", 4000)
 
 \* ---- the mistakes ------------------------------------------------------------------------------
-CutKinds == {"eof_after_kw", "eof_mid", "eof_before_end"}   \* the file stops inside the statement
+CutKinds == {"eof_after_kw", "eof_mid", "eof_before_end", "other_iface_eof"}   \* the file stops inside the statement
 
 Kinds == <<
   \* delimiters
@@ -111,7 +111,7 @@ Kinds == <<
   "ctrl", "cr", "hash", "hash_include", "rawstr_open", "rawstr_noparen", "lone_quote", "lone_dquote", "backslash",
   "deep_brace", "deep_paren", "deep_bracket", "deep_angle",
   \* whole statement
-  "dup", "del", "eof_after_kw", "eof_mid", "eof_before_end" >>
+  "dup", "del", "eof_after_kw", "eof_mid", "eof_before_end", "other_iface_eof" >>
 KindSet == {Kinds[i] : i \in 1..Len(Kinds)}
 
 Mut(k, s) ==
@@ -220,6 +220,9 @@ Mut(k, s) ==
        [] k = "eof_after_kw" -> IF n > 1 THEN <<s[1]>> ELSE s
        [] k = "eof_mid" -> IF n > 3 THEN SubSeq(s, 1, (n + 1) \div 2) ELSE s
        [] k = "eof_before_end" -> IF n > 2 THEN SubSeq(s, 1, n - 1) ELSE s
+       \* a keyword of another interface, restricted to that interface (the tool skips such statements), and the file ends before
+       \* the last token of the statement
+       [] k = "other_iface_eof" -> IF IsKw(s) /\ n > 2 THEN <<"@CastemOutputPrecision", "[", "castem", "]">> \o SubSeq(s, 2, n - 1) ELSE s
        [] OTHER -> s
 
 \* the mistakes that apply to statement s: a mistake that leaves the statement unchanged does not apply
